@@ -128,8 +128,10 @@ ORACLES = {
     'C09': [_oracle('predicates evaluated under interleaved modes', 150, 3000, kind='modes', steps=8, predicates=True),
             _oracle('the() with predicates, inside a rule block', 80, 800, kind='the', inside='rule', vocab=['pred', 'cmp'], n=4, distinct_sizes=True),
             _oracle('the() with predicates, inside a query block', 80, 800, kind='the', inside='query', vocab=['pred', 'cmp'], n=4, distinct_sizes=True),
-            _oracle('an() with predicates and attribute conditions', 100, 1500, nvars=1, depth=2, vocab=['pred', 'cmp', 'name'], neg=True)],
-    'C15': [_oracle('an(entity) sub-query as a condition, and/or', 150, 2000, kind='subquery')],
+            _oracle('an() with predicates and attribute conditions', 100, 1500, nvars=1, depth=2, vocab=['pred', 'cmp', 'name'], neg=True),
+            _oracle('predicates inside a sub-query used as a domain, under each ambient mode', 60, 800, kind='domain_subquery')],
+    'C15': [_oracle('an(entity) sub-query as a condition, and/or', 150, 2000, kind='subquery'),
+            _oracle('the(entity) as a comparison operand, correlated with the enclosing query', 100, 1500, kind='the_operand')],
     'C04': [_oracle('histories of full / partial / aborted evaluations (result cache on)', 200, 3000, kind='history'),
             _oracle('histories (result cache off)', 100, 1500, kind='history', caching=False),
             _oracle('histories over a domain that lists an object twice', 100, 1500, kind='history', duplicates=True)],
@@ -138,7 +140,8 @@ ORACLES = {
             _oracle('flatten, parent selected, condition', 40, 400, kind='flatten', with_cond=True, select_parent=True),
             _oracle('flatten only, condition', 40, 400, kind='flatten', with_cond=True, select_parent=False, falsy=True)],
     'C19': [_oracle('falsy attribute values as operands', 200, 3000, nvars=1, depth=2, falsy=True, neg=True, nested_neg=True),
-            _oracle('falsy / None values as selected outputs', 100, 1500, kind='select', single_attr=True)],
+            _oracle('falsy / None values as selected outputs', 100, 1500, kind='select', single_attr=True),
+            _oracle('an expression object used as a condition, then as an operand', 100, 1500, kind='reuse')],
 }
 
 
